@@ -76,8 +76,17 @@ on a later HEAD after repairs touched the same lines (`meta.json: rebased`).
 Checks are run against a seeded change in a private worktree
 (`tools/tryseed.sh`, `tools/seed_own.sh`; `VERIF_REPO` points the harness at
 it), never in `/repo`. "own check exit" is the exit code of the quick check of
-the change's own property with the full pipeline (minimisation and
-fresh-interpreter replay): 1 = VIOLATION reported.
+the change's own property on the final machinery: 1 = VIOLATION reported after
+the failing plan was replayed in a fresh interpreter (for this final table the
+minimiser was switched off for most rows to fit the run into the time left;
+during the rounds every change went through the full pipeline). "detected by"
+adds the other checks that reported a violation in the cross matrix
+(`tools/seed_matrix.sh`: the 130 changes of rounds 1-6 against the ten other
+quick checks, on the machinery as it stood after round 6). Three cells of that
+matrix ended with a harness error instead of a verdict (C11-K under C13: the
+`-O` child cannot import a numpoly whose registrations live in stripped
+asserts; C13-D and C15-F under C20: the batch wall cap, before a batch that
+runs out of time learned to report what it had found).
 
 What the first runs missed, and what was strengthened (all of it is now part of
 the checks): C07-B needed unsigned/narrow dtypes and int64 extremes; C17-A/B
